@@ -598,6 +598,19 @@ fn random_case(rng: &mut Rng, len: usize) -> String {
     if explicit {
         ops.push(format!("I{}", random_nodes(rng)));
     }
+    // what listens at the node addresses of this case (random_nodes uses the addresses 10/11, 20/21, 30/31): nothing
+    // (refused), or a listener closing at once / closing after OPTIONS / completing the handshake
+    let accepting = ops.first().is_some_and(|o| o == "A1" || o == "A2");
+    if accepting && explicit {
+        for a in [10u16, 11, 20, 21, 30, 31] {
+            match rng.below(6) {
+                0 => ops.push(format!("L{}", a)),
+                1 => ops.push(format!("Q{}", a)),
+                2 => ops.push(format!("Y{}", a)),
+                _ => {}
+            }
+        }
+    }
     for _ in 0..len {
         let k = rng.below(wf + wg + wt + wh + wc + wk + wb);
         ops.push(if k < wf {
